@@ -2,7 +2,7 @@ use std::convert::TryFrom;
 use std::hash::{Hasher, Hash};
 use std::collections::{BTreeSet};
 use std::iter::FromIterator;
-use std::ops::Add;
+use std::ops::{Add, Sub};
 
 use regex::Regex;
 
@@ -86,10 +86,17 @@ impl<'a, T: ColumnProvider> ExpressionExecutionEngine<'a, T> {
 
                 match (&left_value, &right_value) {
                     (Value::Timestamp(left), Value::Interval(right)) => {
-                        return Ok(Value::Timestamp(left.add(right.clone())));
+                        return match operator {
+                            ArithmeticOperator::Add => Ok(Value::Timestamp(left.add(right.clone()))),
+                            ArithmeticOperator::Subtract => Ok(Value::Timestamp(left.sub(right.clone()))),
+                            _ => Err(EvaluationError::UndefinedOperation)
+                        };
                     }
                     (Value::Interval(left), Value::Timestamp(right)) => {
-                        return Ok(Value::Timestamp(right.add(left.clone())));
+                        return match operator {
+                            ArithmeticOperator::Add => Ok(Value::Timestamp(right.add(left.clone()))),
+                            _ => Err(EvaluationError::UndefinedOperation)
+                        };
                     }
                     _ => {}
                 }
